@@ -354,7 +354,8 @@ TWIN_SHARE = 0.05
 
 
 def gen_case(rng, tier):
-    return _twin.maybe_wrap(rng, _gen_case(rng, tier), TWIN_SHARE, ok=lambda c: c['T'] <= 4000 and not c.get('endless'))
+    return _twin.maybe_wrap(rng, _gen_case(rng, tier), TWIN_SHARE, gen_other=lambda r: _gen_case(r, tier),
+                            ok=lambda c: c['T'] <= 4000 and not c.get('endless'))
 
 
 def run_case(case):
